@@ -393,6 +393,40 @@ def reader_rf_format(repo=None):
     return m, fmts[0], strf[0]
 
 
+def regen_data_glob(repo=None):
+    """(pattern text, glob.glob calls, local name or None) of the glob by which recreate_properties_file looks for data files:
+    the glob.glob call whose pattern - the last component of the os.path.join it is given, a once-assigned local resolved -
+    folds to a text ending in `.h5` (the other glob of the function lists sub-directories)"""
+    m2 = pyfront.mod("digital_rf_hdf5", repo)
+    fn = m2.fn("recreate_properties_file")
+    fo = cfold.Folder(repo)
+    found = []
+    for c in ast.walk(fn):
+        if not (isinstance(c, ast.Call) and pyfront.call_name(c) == "glob.glob" and c.args):
+            continue
+        a = c.args[0]
+        if isinstance(a, ast.Call) and pyfront.call_name(a) == "os.path.join" and a.args:
+            a = a.args[-1]
+        name = None
+        if isinstance(a, ast.Name):
+            defs = [n.value for n in ast.walk(fn) if isinstance(n, ast.Assign) and len(n.targets) == 1 and isinstance(n.targets[0], ast.Name)
+                    and n.targets[0].id == a.id]
+            if len(defs) != 1:
+                continue
+            name, a = a.id, defs[0]
+        try:
+            text = fo.expr("digital_rf_hdf5", a)
+        except AnalysisError:
+            continue
+        if isinstance(text, str) and text.endswith(".h5"):
+            found.append((text, c, name))
+    if not found:
+        raise AnalysisError("recreate_properties_file: the glob for data files (a pattern ending in .h5 given to glob.glob) was not found")
+    if len({t for t, _, _ in found}) != 1:
+        raise AnalysisError("recreate_properties_file: several different data-file globs: %s" % sorted({t for t, _, _ in found}))
+    return found[0][0], [c for _, c, _ in found], found[0][2]
+
+
 def r5_readers_ignore_tmp(repo=None):
     r = Rule("C02.R5", "readers, listings and regeneration cannot see `tmp.` names; a clean close leaves no tmp (rx)")
     m, (fmt, fnode), (sfmt, snode) = reader_rf_format(repo)
@@ -417,13 +451,7 @@ def r5_readers_ignore_tmp(repo=None):
     # regeneration glob
     m2 = pyfront.mod("digital_rf_hdf5", repo)
     fn = m2.fn("recreate_properties_file")
-    globexpr = None
-    for n in ast.walk(fn):
-        if isinstance(n, ast.Assign) and isinstance(n.targets[0], ast.Name) and n.targets[0].id == "rf_file_glob":
-            globexpr = n.value
-    if globexpr is None:
-        raise AnalysisError("recreate_properties_file: rf_file_glob assignment not found")
-    gtext = cfold.Folder(repo).expr("digital_rf_hdf5", globexpr)
+    gtext, _gcalls, _gname = regen_data_glob(repo)
     greg = rx.glob_to_regex(gtext)
     sp2 = rx.Space({"G": greg, "TMP": r"tmp\."}, texts=["tmp.rf@.h5"])
     w = (sp2["G"] & sp2["TMP"]).witness()
